@@ -2,6 +2,7 @@ import MwVerif.Lemmas.Tree.Replace
 import MwVerif.Lemmas.Passes.FixParagraphs
 import MwVerif.Lemmas.Passes.FixNestingWords
 import MwVerif.Lemmas.SplitRow.Lossless
+import MwVerif.Lemmas.SingleCol.Lossless
 /-!
 # C07 — cleaning is lossless for ordinary content (primitive level)
 
@@ -58,3 +59,22 @@ theorem c07_split_row_lossless (mx : Nat) (row : List (List (Nat × Nat))) (c : 
 example : splitRow 378 [[(200, 1), (200, 2), (200, 3)], [(10, 9)]] = [[[1], [9]], [[2, 3], []]] := by decide
 
 end MwVerif.SplitRow
+
+namespace MwVerif.SingleCol
+
+/-- **C07 (`transform_single_col_tables` keeps the table's content).**  Dissolving a one-column table keeps everything below it (the caption's content included), once and in order,
+with or without the `Div` wrappers. -/
+theorem c07_single_col_lossless (wrap : Bool) (table : List Child) :
+    (unpack wrap table).flatMap Out.leaves = leaves table := unpack_leaves_aux wrap _
+
+/-- the same step with wrappers: no row, no cell and no caption is left outside a table - what replaces the table is made of `Div`s and of the cells' own children. -/
+theorem c07_single_col_divs (table : List Child) : ∀ o ∈ unpack true table, ∃ items, o = .div items := by
+  intro o ho
+  simp only [unpack, unpackCell, if_true, List.mem_flatMap, List.mem_singleton] at ho
+  obtain ⟨c, _, rfl⟩ := ho
+  exact ⟨c, rfl⟩
+
+example : unpack true [.caption [1], .row [[2, 3]], .row [[4]]] = [.div [1], .div [2, 3], .div [4]] := by decide
+example : unpack false [.caption [1], .row [[2, 3]], .row [[4]]] = [.item 1, .item 2, .item 3, .item 4] := by decide
+
+end MwVerif.SingleCol
